@@ -5,6 +5,7 @@ import (
 	"encoding/json"
 	"flag"
 	"fmt"
+	"go/ast"
 	"go/types"
 	"os"
 	"path/filepath"
@@ -47,6 +48,8 @@ func main() {
 		os.Exit(cmdReplay(os.Args[2:]))
 	case "list":
 		os.Exit(cmdList(os.Args[2:]))
+	case "names":
+		os.Exit(cmdNames(os.Args[2:]))
 	}
 	fmt.Fprintln(os.Stderr, "unknown command", os.Args[1])
 	os.Exit(2)
@@ -124,8 +127,9 @@ func cmdCheck(args []string) int {
 }
 
 type unitRun struct {
-	u   *Unit
-	err string
+	u     *Unit
+	err   string
+	rerun func() (*Unit, string) // runs the same unit again (used by the invariant re-binding of repair.go)
 }
 
 func runCheck(o checkOpts) int {
@@ -147,48 +151,81 @@ func runCheck(o checkOpts) int {
 	var runs []unitRun
 	var funcs []string
 	var unitErrsEarly []string
-	for _, blk := range prog.Contracts.Order {
-		if hasProp(blk.Prop, o.prop) && strings.HasPrefix(blk.Sub, "lit ") {
+	// the blocks of this property, then - to a fixpoint - the blocks of every callee whose contract one of them was checked
+	// against: a caller is verified against the callee's contract, so a change inside the callee that breaks that contract
+	// must fail under every property that relies on it (--only restricts the run to one function, without the closure)
+	done := map[*Block]bool{}
+	runBlock := func(blk *Block) {
+		if done[blk] {
+			return
+		}
+		done[blk] = true
+		if strings.HasPrefix(blk.Sub, "lit ") {
 			// a function literal verified as its own unit against its contract
 			fi := prog.Funcs[blk.Key]
-			if fi == nil || (o.only != "" && blk.Key != o.only) {
-				continue
+			if fi == nil {
+				return
 			}
 			lit := litBySub(fi, blk.Sub)
 			if lit == nil {
 				unitErrsEarly = append(unitErrsEarly, fmt.Sprintf("%s/%s %s: the function has no such literal any more", o.prop, blk.Key, blk.Sub))
-				continue
+				return
 			}
 			blk.Bound = true
 			funcs = append(funcs, blk.Key+" "+blk.Sub)
 			u, e := runUnitLit(prog, fi, blk, o.prop, "", nil, lit)
 			u.finish()
-			runs = append(runs, unitRun{u, e})
-			continue
+			runs = append(runs, unitRun{u, e, func() (*Unit, string) {
+				u, e := runUnitLit(prog, fi, blk, o.prop, "", nil, lit)
+				u.finish()
+				return u, e
+			}})
+			return
 		}
-		if !hasProp(blk.Prop, o.prop) || blk.Sub != "" {
-			continue
-		}
-		if o.only != "" && blk.Key != o.only {
-			continue
+		if blk.Sub != "" {
+			return
 		}
 		fi := prog.Funcs[blk.Key]
 		if fi == nil {
-			continue // reported through bindErrors
+			return // reported through bindErrors
 		}
 		blk.Bound = true
 		if blk.Trusted != "" || blk.Opts["inline"] != "" {
-			continue
+			return
 		}
 		funcs = append(funcs, blk.Key)
 		if blk.Opts["split"] == "convkinds" {
 			runs = append(runs, convKindRuns(prog, fi, blk, o.prop)...)
-			continue
+			return
 		}
 		u, e := runUnit(prog, fi, blk, o.prop, "", nil)
 		u.finish()
-		runs = append(runs, unitRun{u, e})
+		runs = append(runs, unitRun{u, e, func() (*Unit, string) {
+			u, e := runUnit(prog, fi, blk, o.prop, "", nil)
+			u.finish()
+			return u, e
+		}})
 	}
+	for _, blk := range prog.Contracts.Order {
+		if !hasProp(blk.Prop, o.prop) || (o.only != "" && blk.Key != o.only) {
+			continue
+		}
+		runBlock(blk)
+	}
+	direct := len(runs)
+	for next := 0; o.only == "" && next < len(runs); next++ {
+		if runs[next].u == nil {
+			continue
+		}
+		for key := range runs[next].u.usedContracts {
+			for _, blk := range prog.Contracts.Order {
+				if blk.Key == key && !done[blk] && (blk.Sub == "" || strings.HasPrefix(blk.Sub, "lit ")) {
+					runBlock(blk)
+				}
+			}
+		}
+	}
+	_ = direct
 	// lemmas
 	for _, lm := range prog.Contracts.Lemmas {
 		if lm.Prop != o.prop {
@@ -197,17 +234,50 @@ func runCheck(o checkOpts) int {
 		runs = append(runs, lemmaRun(prog, lm, o.prop))
 	}
 	var obs []*Obligation
-	unitErrs := append([]string(nil), unitErrsEarly...)
-	for _, r := range runs {
-		if r.err != "" {
-			unitErrs = append(unitErrs, fmt.Sprintf("%s%s: %s", r.u.Name, r.u.Suffix, r.err))
-			continue
+	var unitErrs []string
+	collect := func() {
+		obs = nil
+		unitErrs = append([]string(nil), unitErrsEarly...)
+		for _, r := range runs {
+			if r.err != "" {
+				unitErrs = append(unitErrs, fmt.Sprintf("%s%s: %s", r.u.Name, r.u.Suffix, r.err))
+				continue
+			}
+			obs = append(obs, r.u.Obs...)
 		}
-		obs = append(obs, r.u.Obs...)
 	}
+	collect()
 	runner := &Runner{OutDir: filepath.Join(vdir, "out", "vc", o.prop), Timeout: o.timeout, Workers: o.workers, Confirm: o.tier == "thorough"}
 	os.RemoveAll(runner.OutDir)
 	runner.Solve(obs)
+	// functions with loop invariants that failed as recorded: one more attempt with the invariants re-bound (repair.go)
+	if os.Getenv("GOVC_NO_REBIND") == "" {
+		fast := &Runner{OutDir: filepath.Join(vdir, "out", "vc", o.prop+"-rebind"), Timeout: 6, Workers: o.workers, SolverSecs: runner.SolverSecs, SolverWins: runner.SolverWins}
+		os.RemoveAll(fast.OutDir)
+		again := &Runner{OutDir: fast.OutDir, Timeout: o.timeout, Workers: o.workers, Confirm: runner.Confirm, SolverSecs: runner.SolverSecs, SolverWins: runner.SolverWins}
+		changed := false
+		for i, r := range runs {
+			if r.u == nil || r.u.FI == nil || r.rerun == nil || !hasLoopBlocks(prog, r.u.FI.Key) {
+				continue
+			}
+			failed := r.err != ""
+			for _, ob := range r.u.Obs {
+				if ob.Status != "discharged" {
+					failed = true
+				}
+			}
+			if !failed {
+				continue
+			}
+			if nu := repairUnit(prog, r, fast, again); nu != nil {
+				runs[i] = unitRun{nu, "", r.rerun}
+				changed = true
+			}
+		}
+		if changed {
+			collect()
+		}
+	}
 
 	known := loadKnown()
 	isKnown := func(name string) *KnownFinding {
@@ -335,8 +405,19 @@ func convKindRuns(prog *Program, fi *FuncInfo, blk *Block, prop string) []unitRu
 		cases = append(cases, kcase{k.Name, k.Ty})
 	}
 	cases = append(cases, kcase{"unsupported", nil})
+	// "opt split-only.<prop>=a,b": under that property only the named cases are run (C01 needs the absent case only, which
+	// lies in "unsupported": no dynamic type of a supported kind)
+	only := map[string]bool{}
+	for _, n := range strings.Split(blk.Opts["split-only."+prop], ",") {
+		if n != "" {
+			only[n] = true
+		}
+	}
 	for _, kc := range cases {
 		kc := kc
+		if len(only) > 0 && !only[kc.name] {
+			continue
+		}
 		u, e := runUnit(prog, fi, blk, prop, "/from="+kc.name, func(u *Unit) func(env *Env) {
 			return func(env *Env) {
 				recv := env.vars[u.recvObj]
@@ -380,7 +461,7 @@ func convKindRuns(prog *Program, fi *FuncInfo, blk *Block, prop string) []unitRu
 		for _, ob := range u.Obs {
 			ob.replayer = rp
 		}
-		runs = append(runs, unitRun{u, e})
+		runs = append(runs, unitRun{u, e, nil})
 	}
 	return runs
 }
@@ -396,7 +477,7 @@ func lemmaRun(prog *Program, lm *Lemma, prop string) unitRun {
 	}
 	u := newUnit(prog, anyFi, &Block{Key: "lemma " + lm.Name}, prop, "")
 	u.Name = prop + "/lemma/" + lm.Name
-	return unitRun{u, "lemmas are not supported by this engine version"}
+	return unitRun{u, "lemmas are not supported by this engine version", nil}
 }
 
 // ---------------------------------------------------------------------------------------------
@@ -632,6 +713,9 @@ func runCanaries(o checkOpts) []map[string]interface{} {
 			if isBenign[patch] {
 				if n == 0 {
 					rec["result"] = "not reported (as it should be)"
+				} else if why := knownLimit(id); why != "" {
+					rec["result"] = "reported - a known limit of the technique (DESIGN.md 13.10): " + why
+					fmt.Printf("SELFTEST-NOTE: property=%s behaviour-preserving edit %s is reported (known limit: %s)\n", o.prop, id, why)
 				} else {
 					rec["result"] = "FALSE ALARM"
 					fmt.Printf("SELFTEST-WARNING: property=%s behaviour-preserving edit %s was reported as a violation\n", o.prop, id)
@@ -648,4 +732,109 @@ func runCanaries(o checkOpts) []map[string]interface{} {
 		out = append(out, rec)
 	}
 	return out
+}
+
+
+// govc names: print the "//@ vars" index (variable names in source order of every function under contract) for the
+// contract files of one package directory ("" = root); tools/gen_names.sh writes it to contracts_verif_names.go
+func cmdNames(args []string) int {
+	fs := flag.NewFlagSet("names", flag.ExitOnError)
+	repo := fs.String("repo", "/repo", "repository")
+	cm := fs.String("contracts", "mirror", "auto|mirror|repo")
+	prefix := fs.String("prefix", "", "key prefix of the package (\"\" or \"network:\")")
+	fs.Parse(args)
+	prog, err := loadProgram(*repo, *cm)
+	if err != nil {
+		fmt.Println("load error:", err)
+		return 1
+	}
+	seen := map[string]bool{}
+	var keys []string
+	for _, b := range prog.Contracts.Order {
+		if !seen[b.Key] {
+			seen[b.Key] = true
+			keys = append(keys, b.Key)
+		}
+	}
+	sort.Strings(keys)
+	for _, k := range keys {
+		fi := prog.Funcs[k]
+		if fi == nil {
+			continue
+		}
+		has := strings.Contains(k, ":")
+		if (*prefix == "") == has || (has && !strings.HasPrefix(k, *prefix)) {
+			continue
+		}
+		fmt.Printf("//@ vars %s: %s\n", strings.TrimPrefix(k, *prefix), strings.Join(varsOf(fi), " "))
+	}
+	return 0
+}
+
+// the variables a function declares, in source order: receiver, parameters, named results, locals (also those of its literals)
+func varsOf(fi *FuncInfo) []string {
+	var out []string
+	info := fi.Pkg.TypesInfo
+	ast.Inspect(fi.Decl, func(n ast.Node) bool {
+		if id, ok := n.(*ast.Ident); ok {
+			if v, ok := info.Defs[id].(*types.Var); ok && !v.IsField() && id.Name != "_" {
+				out = append(out, id.Name)
+			}
+		}
+		return true
+	})
+	return out
+}
+
+// renames[old] = new for the function: positional comparison of the recorded variable list with the present one (only when
+// both have the same length, and only for names whose positions agree on one new name)
+func (p *Program) renames(fi *FuncInfo) map[string]string {
+	if fi == nil {
+		return nil
+	}
+	if m, ok := p.renameCache[fi]; ok {
+		return m
+	}
+	m := map[string]string{}
+	rec := p.Contracts.Vars[fi.Key]
+	cur := varsOf(fi)
+	if len(rec) > 0 && len(rec) == len(cur) {
+		bad := map[string]bool{}
+		curNames := map[string]bool{}
+		for _, c := range cur {
+			curNames[c] = true
+		}
+		for i := range rec {
+			if rec[i] == cur[i] || curNames[rec[i]] {
+				continue // still declared under that name somewhere in the function: no aliasing for it
+			}
+			if prev, ok := m[rec[i]]; ok && prev != cur[i] {
+				bad[rec[i]] = true
+			}
+			m[rec[i]] = cur[i]
+		}
+		for b := range bad {
+			delete(m, b)
+		}
+	}
+	if p.renameCache == nil {
+		p.renameCache = map[*FuncInfo]map[string]string{}
+	}
+	p.renameCache[fi] = m
+	return m
+}
+
+
+// /verif/benign/KNOWN_LIMITS.txt: "<id>: <why>" for the stored behaviour-preserving edits that this technique cannot keep quiet
+func knownLimit(id string) string {
+	b, err := os.ReadFile(filepath.Join(verifDir(), "benign", "KNOWN_LIMITS.txt"))
+	if err != nil {
+		return ""
+	}
+	for _, l := range strings.Split(string(b), "\n") {
+		if strings.HasPrefix(l, id+":") {
+			return strings.TrimSpace(strings.TrimPrefix(l, id+":"))
+		}
+	}
+	return ""
 }
